@@ -22,7 +22,9 @@ def make_state(Rp, c, labels, K, m, data=None, spreads=True):
     state = Rp.model_state.ModelState.empty_model(args, data)
     state.point_labels = labels
     for k, cl in enumerate(state.clusters):
-        cl.computed_covariance = np.array([float(k)])      # tag read by the norm stub
+        # 2-D, like the real computed covariances (for a matrix the default norm is Frobenius, ord=2 is
+        # the spectral norm); element [0,0] is the tag read by the norm stub
+        cl.computed_covariance = np.array([[float(k), 0.0], [0.0, 0.0]])
     return state
 
 
@@ -31,12 +33,26 @@ class SpreadOracle:
     non-negative real per cluster (the cluster is identified by the tag stored
     in its computed_covariance)."""
 
-    def __init__(self, c, K):
-        self.s = [c.real('spread_%d' % k, 0) for k in range(K)]
+    takes_ord = True
 
-    def __call__(self, v):
+    def __init__(self, c, K):
+        self.c = c
+        self.s = [c.real('spread_%d' % k, 0) for k in range(K)]
+        self.spec = {}
+
+    def __call__(self, v, ord=None, axis=None, keepdims=False):
         v = np.asarray(v)
-        return self.s[int(v._flat()[0])]
+        k = int(v._flat()[0])
+        if ord in (None, 'fro') or (v.ndim == 1 and ord == 2):
+            return self.s[k]                       # "the spread" of the property: Frobenius / Euclidean
+        if ord == 2 and v.ndim == 2:
+            # spectral norm: another quantity, tied to the Frobenius norm only by spec <= fro <= sqrt(n) spec
+            if k not in self.spec:
+                t = self.c.real('spec_%d' % k, 0)
+                self.c.assume(z3.And(R(t) <= R(self.s[k]), 4 * R(t) >= 3 * R(self.s[k])))
+                self.spec[k] = t
+            return self.spec[k]
+        return self.c.real('norm_%s_%d' % (str(ord).replace('-', 'm'), k), 0)
 
 
 def sizes_of(labels, K):
